@@ -13,6 +13,7 @@ from .values import (AttrFieldV, BytesV, ClassV, ComposerV, DictV, FieldV, FuncV
 MUTATORS = {'append', 'insert', 'extend', 'pop', 'remove', 'clear', 'update', 'sort', 'reverse', 'add', 'discard',
             'setdefault', 'popitem', '__setitem__', '__delitem__', '__iadd__'}
 
+PURE_BUILTINS = {'divmod': divmod, 'abs': abs, 'min': min, 'max': max, 'pow': pow, 'round': round}
 PARSER_CLASSES = {'ParserBinary': 'binary', 'ParserText': 'text', 'ParserBase': 'binary'}
 COMPOSER_CLASSES = {'ComposerBinary': 'binary', 'ComposerText': 'text', 'ComposerBase': 'binary'}
 
@@ -611,6 +612,11 @@ class CallMixin:
     def call_ext(self, d, args, kwargs, fr, node):
         d = d.replace('builtins.', '')
         a0 = args[0] if args else None
+        if d in PURE_BUILTINS and args and not kwargs and all(isinstance(a, (int, float)) and not isinstance(a, bool) for a in args):
+            try:
+                return PURE_BUILTINS[d](*args)      # arithmetic builtins on constants fold like the operators do
+            except Exception:      # pylint: disable=broad-except
+                pass
         if d == 'len' and len(args) == 1:
             if is_const(a0) and a0 is not None:
                 try:
